@@ -16,7 +16,7 @@ DEVIATIONS = [
     "int-as-long", "float-native", "float-string-lexical", "bool-typed", "bool-typed-01", "bool-json-in-$",
     "lang-with-type", "time-Z", "prefix-in-bundle-too", "prefix-bundle-only", "reverse-keys", "anon-ids-named",
     "default-ns", "members-in-one-record-array", "typed-literal-number-$", "str-typed-number-$", "float-typed-int-$",
-    "empty-containers", "empty-lang", "time-end-of-day",
+    "empty-containers", "empty-lang", "time-end-of-day", "two-defaults",
 ]
 
 
@@ -226,6 +226,11 @@ def write(doc, prefixes, dialect=(), default=None, indent=None):
     top, bundles = doc
     if "default-ns" not in sites.dialect:
         default = None
+    # the document declares one default namespace (http://b/), every bundle its own, different one (`default`)
+    two = bool(bundles) and sites.on("two-defaults")
+    bundle_default = default
+    if two:
+        default, bundle_default = "http://b/", "http://a/"
     namer = Namer(prefixes, default)
     anon = [0]
     out = container(top, namer, sites, anon)
@@ -234,11 +239,14 @@ def write(doc, prefixes, dialect=(), default=None, indent=None):
     in_bundle_too = sites.on("prefix-in-bundle-too")
     doc_used = set(namer.used)
     for buri, recs in bundles:
-        bn = Namer(namer.prefixes, namer.default)
+        bn = Namer(namer.prefixes, bundle_default if two else namer.default)
         body = container(recs, bn, sites, anon)
         bid = bn.name(buri)
         namer.prefixes.update(bn.prefixes)
         decl = OrderedDict()
+        if two and None in bn.used:
+            decl["default"] = bn.default
+            bn.used.discard(None)
         if in_bundle_too or bundle_only:
             for base in bn.used:
                 if base is None:
@@ -296,4 +304,6 @@ def write_with(doc, prefixes, sites, default=None):
     for buri, recs in bundles:
         container(recs, Namer(namer.prefixes, namer.default), sites, anon)
     sites.on("empty-containers")
+    if bundles:
+        sites.on("two-defaults")
     sites.on("reverse-keys")
